@@ -1112,3 +1112,15 @@ long shim_members_named_by_value(const cJSON *o)
     }
     return -1;
 }
+
+/* ambient C state a library call may inherit from unrelated earlier calls on the thread: errno.  A call that consults errno
+ * without clearing it first behaves differently after, say, a parse of "1e999" (strtod leaves ERANGE). */
+#include <errno.h>
+void shim_set_errno(int e) { errno = e; }
+int shim_get_errno(void) { return errno; }
+
+cJSON *shim_get_pointer_errno(cJSON *object, const char *pointer, int case_sensitive, int e)
+{
+    errno = e;
+    return case_sensitive ? cJSONUtils_GetPointerCaseSensitive(object, pointer) : cJSONUtils_GetPointer(object, pointer);
+}
